@@ -4,7 +4,7 @@ import ast
 from ..core import sym
 from ..core.expand import u, call_name, get_arg, bind_args, Expander, is_marker, phi_alternatives
 from ..core.loader import Inconclusive, const_value, parents, walk_scope
-from .common import (literal_nf, returns, all_nodes, callee, strip_shape, calls_in, guards_of, stmt_of, loops_around, kw,
+from .common import (guard_dnf, literal_nf, returns, all_nodes, callee, strip_shape, calls_in, guards_of, stmt_of, loops_around, kw,
                      find_assignments, in_loop)
 
 EXPLANATION = (
@@ -210,8 +210,9 @@ def rule_next(ck):
     fb = [n for n in all_nodes(f) if isinstance(n, ast.Call) and isinstance(n.func, ast.Attribute) and n.func.attr in ('filter', 'apply_mct', 'filter_spatial')]
     for c in fb:
         oo = ck.ob('C13-D5.block', f, c, c)
-        g = [u(t) for t, pol in guards_of(c, f.node) if pol]
-        (oo.ok() if 'self.apply_filters' in g else oo.fail('the filter call is not under `if self.apply_filters`'))
+        dnf = guard_dnf(c, f.node)
+        under = bool(dnf) and all(any(u(t) == 'self.apply_filters' and pol for t, pol in conj) for conj in dnf)
+        (oo.ok() if under else oo.fail('the filter call is not under `if self.apply_filters`'))
 
 
 def rule_getters(ck):
